@@ -58,18 +58,6 @@ theorem encodeVarname_proxy_iff (n : Bytes) :
 
 /-! ### the meta-variable list -/
 
-/-- names of the server-defined variables -/
-def metaNamesS : List String :=
-  ["CONTENT_LENGTH", "QUERY_STRING", "REQUEST_URI", "REDIRECT_URI", "REDIRECT_STATUS", "SCRIPT_NAME",
-   "PATH_INFO", "PATH_TRANSLATED", "SCRIPT_FILENAME", "DOCUMENT_ROOT", "REQUEST_METHOD",
-   "SERVER_PROTOCOL", "SERVER_SOFTWARE", "GATEWAY_INTERFACE", "REQUEST_SCHEME", "HTTPS", "SERVER_PORT",
-   "SERVER_ADDR", "SERVER_NAME", "REMOTE_ADDR", "REMOTE_PORT"]
-
-def metaNames : List Bytes := metaNamesS.map ofString
-
-/-- the three request-header look-alikes synthesised for an HTTP/2 extended CONNECT -/
-def h2ExtNamesS : List String := ["HTTP_SEC_WEBSOCKET_KEY", "HTTP_UPGRADE", "HTTP_CONNECTION"]
-
 theorem contentType_not_meta : ofString "CONTENT_TYPE" ∉ metaNames := by decide
 
 theorem metaNames_no_http_prefix : ∀ m ∈ metaNames, httpPrefix.isPrefixOf m = false := by decide
@@ -102,6 +90,78 @@ theorem cgiMetaS_names (o : CgiOpts) (r : CgiReq) :
        first
          | exact ⟨hc.1, by simp [h2ExtNamesS]⟩
          | exact ⟨hc, by simp [h2ExtNamesS]⟩)
+
+/-- what the client's fields become: never HTTP_PROXY, never a server-defined name, always from a
+    field of the request with that value -/
+theorem headerVars_sound (hs : List (Bytes × Bytes)) :
+    ∀ p ∈ headerVars hs,
+      p.1 ≠ ofString "HTTP_PROXY" ∧ p.1 ∉ metaNames ∧
+      ∃ k, (k, p.2) ∈ hs ∧ p.2 ≠ [] ∧ eqIcase k (ofString "Proxy") = false ∧
+        ((eqIcase k (ofString "Content-Type") = true ∧ p.1 = ofString "CONTENT_TYPE") ∨
+         (eqIcase k (ofString "Content-Type") = false ∧ p.1 = encodeVarname true k)) := by
+  intro p hp
+  simp only [headerVars, List.mem_filterMap] at hp
+  obtain ⟨⟨k, v⟩, hmem, hv⟩ := hp
+  simp only [headerVar] at hv
+  by_cases h1 : v.isEmpty = true
+  · simp [h1] at hv
+  · by_cases h2 : eqIcase k (ofString "Proxy") = true
+    · simp [h1, h2] at hv
+    · have hvne : v ≠ [] := by intro e; apply h1; rw [e]; rfl
+      have h2' : eqIcase k (ofString "Proxy") = false := by simpa using h2
+      by_cases h3 : eqIcase k (ofString "Content-Type") = true
+      · simp only [h1, Bool.false_eq_true, ↓reduceIte, h2, h3, Option.some.injEq] at hv
+        subst hv
+        exact ⟨by show ofString "CONTENT_TYPE" ≠ ofString "HTTP_PROXY"; decide,
+               contentType_not_meta, k, hmem, hvne, h2', Or.inl ⟨h3, rfl⟩⟩
+      · simp only [h1, Bool.false_eq_true, ↓reduceIte, h2, h3, Option.some.injEq] at hv
+        subst hv
+        refine ⟨?_, encodeVarname_not_meta k, k, hmem, hvne, h2', Or.inr ⟨by simpa using h3, rfl⟩⟩
+        intro e
+        exact h2 ((encodeVarname_proxy_iff k).mp e)
+
+/-- the value each of the request-derived names has in the fixed list (and that it has no other) -/
+theorem cgiMetaS_values (o : CgiOpts) (r : CgiReq) (v : Bytes) :
+    (("QUERY_STRING", v) ∈ cgiMetaS o r ↔ v = r.query) ∧
+    (("REQUEST_URI", v) ∈ cgiMetaS o r ↔ v = requestUri o.stripRequestUri r.targetOrig) ∧
+    (("CONTENT_LENGTH", v) ∈ cgiMetaS o r ↔ o.authorizer = false ∧ v = intDec r.bodyLen) ∧
+    (("SCRIPT_NAME", v) ∈ cgiMetaS o r ↔ o.authorizer = false ∧ v = r.path) ∧
+    (("PATH_INFO", v) ∈ cgiMetaS o r ↔ o.authorizer = false ∧ r.pathinfo ≠ [] ∧ v = r.pathinfo) ∧
+    (("REQUEST_METHOD", v) ∈ cgiMetaS o r ↔
+        v = if r.h2ConnectExt then ofString "GET" else r.method) ∧
+    (("SERVER_PROTOCOL", v) ∈ cgiMetaS o r ↔
+        v = if r.h2ConnectExt then ofString "HTTP/1.1" else versionName r.version) ∧
+    (("REMOTE_ADDR", v) ∈ cgiMetaS o r ↔ v = r.remoteAddr) := by
+  have hne : ∀ l : Bytes, (!l.isEmpty) = true ↔ l ≠ [] := by intro l; cases l <;> simp
+  refine ⟨?_, ?_, ?_, ?_, ?_, ?_, ?_, ?_⟩ <;>
+    simp [cgiMetaS, List.mem_filterMap, optE, eq_comm (a := v), hne, and_assoc]
+
+/-- distinct variable names are distinct byte strings -/
+theorem names_inj : ∀ a ∈ metaNamesS ++ h2ExtNamesS, ∀ b ∈ metaNamesS ++ h2ExtNamesS,
+    ofString a = ofString b → a = b := by decide
+
+/-- in the WHOLE variable list a server-defined name `n` has exactly the values it has in the
+    fixed part: client fields can never produce it, and `r->env` does not when no module put a
+    variable of that name there -/
+theorem cgiEnv_meta_iff (o : CgiOpts) (r : CgiReq) (n : String) (hn : n ∈ metaNamesS) (v : Bytes)
+    (henv : ∀ e ∈ r.env, encodeVarname false e.1 ≠ ofString n) :
+    (ofString n, v) ∈ cgiEnv o r ↔ (n, v) ∈ cgiMetaS o r := by
+  simp only [cgiEnv, List.mem_append, cgiMeta, List.mem_map, envVars]
+  constructor
+  · rintro ((⟨s, hs, he⟩ | hh) | ⟨e, he, hee⟩)
+    · simp only [Prod.mk.injEq] at he
+      have hs1 : s.1 ∈ metaNamesS ++ h2ExtNamesS := by
+        rcases cgiMetaS_names o r s hs with h | ⟨_, h⟩
+        · exact List.mem_append_left _ h
+        · exact List.mem_append_right _ h
+      have := names_inj s.1 hs1 n (List.mem_append_left _ hn) he.1
+      rw [← this, ← he.2]; exact hs
+    · have := (headerVars_sound r.headers _ hh).2.1
+      exact absurd (List.mem_map.mpr ⟨n, hn, rfl⟩) this
+    · simp only [Prod.mk.injEq] at hee
+      exact absurd hee.1 (henv e he)
+  · intro h
+    exact Or.inl (Or.inl ⟨(n, v), h, rfl⟩)
 
 /-! ### path-info split -/
 
@@ -193,32 +253,66 @@ theorem findIdx_spec (p : UInt8 → Bool) : ∀ (l : Bytes) (k : Nat),
 
 /-! ### HTTP/2 DATA frames -/
 
-def framesData (fs : List DataFrame) : Bytes := (fs.map (·.payload)).flatten
+/-- a well-formed padded / unpadded frame carries exactly its data: Pad Length octet and padding
+    are stripped -/
+theorem data_mk' (d : Bytes) (pad : Option Nat) (e : Bool) (hp : ∀ n, pad = some n → n < 256) :
+    (DataFrame.mk' d pad e).data = some d := by
+  cases pad with
+  | none => simp [DataFrame.mk', DataFrame.data]
+  | some n =>
+    have hn : n < 256 := hp n rfl
+    have e1 : n.toUInt8.toNat = n := by
+      simp [Nat.toUInt8, UInt8.toNat_ofNat']; omega
+    simp only [DataFrame.mk', DataFrame.data, ↓reduceIte]
+    show (if n.toUInt8.toNat ≥ (n.toUInt8 :: (d ++ List.replicate n 0)).length then none
+          else some (List.take ((d ++ List.replicate n 0).length - n.toUInt8.toNat) (d ++ List.replicate n 0))) = some d
+    rw [e1]
+    simp only [List.length_cons, List.length_append, List.length_replicate]
+    have h1 : ¬ (n ≥ d.length + n + 1) := by omega
+    rw [if_neg h1]
+    have : d.length + n - n = d.length := by omega
+    rw [this, List.take_left]
 
-theorem h2_fold_open (fs : List DataFrame) (hne : ∀ f ∈ fs, f.endStream = false) :
-    ∀ (st : H2Body), st.state = .open →
+theorem framesData_cons (f : DataFrame) (tl : List DataFrame) (d : Bytes) (h : f.data = some d) :
+    framesData (f :: tl) = d ++ framesData tl := by
+  simp [framesData, h]
+
+theorem h2_fold_open (c : H2Cfg) (fs : List DataFrame)
+    (hne : ∀ f ∈ fs, f.endStream = false ∧ f.data.isSome = true) :
+    ∀ (st : H2Body), st.state = .open → st.goaway = false →
       (st.bodyLen = -1 ∨ ((st.out.length + (framesData fs).length : Nat) : Int) ≤ st.bodyLen) →
-      fs.foldl h2RecvData st = { st with out := st.out ++ framesData fs } := by
+      (c.maxSize = 0 ∨ st.out.length + (framesData fs).length ≤ c.maxSize * 1024) →
+      fs.foldl (h2RecvData c) st = { st with out := st.out ++ framesData fs } := by
   induction fs with
-  | nil => intro st _ _; simp [framesData]
+  | nil => intro st _ _ _ _; simp [framesData]
   | cons f tl ih =>
-    intro st hopen hb
-    have hf : f.endStream = false := hne f (by simp)
-    have hdata : framesData (f :: tl) = f.payload ++ framesData tl := by simp [framesData]
-    have hstep : h2RecvData st f = { st with out := st.out ++ f.payload } := by
+    intro st hopen hga hb hm
+    obtain ⟨hf, hd⟩ := hne f (by simp)
+    obtain ⟨d, hdd⟩ := Option.isSome_iff_exists.mp hd
+    have hdata := framesData_cons f tl d hdd
+    have hstep : h2RecvData c st f = { st with out := st.out ++ d } := by
       unfold h2RecvData
-      have h1 : ¬ (st.state ≠ .open) := by simp [hopen]
-      have h2 : ¬ (st.bodyLen ≥ 0 ∧ st.bodyLen < ((st.out.length + f.payload.length : Nat) : Int)) := by
+      simp only [hga, Bool.false_eq_true, ↓reduceIte, hdd, hopen, ne_eq, not_true_eq_false, hf]
+      have h2 : ¬ (st.bodyLen ≥ 0 ∧ st.bodyLen < ((st.out.length + d.length : Nat) : Int)) := by
         rcases hb with hb | hb
         · omega
         · rw [hdata, List.length_append] at hb
           push_cast at hb ⊢
           omega
-      simp only [h1, h2, hf, ↓reduceIte, Bool.false_eq_true]
+      simp only [h2, ↓reduceIte]
+      by_cases hz0 : c.maxSize = 0
+      · simp only [hz0, ↓reduceIte]
+      · simp only [hz0, ↓reduceIte]
+        have hn : ((c.maxSize * 1024 : Nat) : Int) - ((st.out.length + d.length : Nat) : Int) ≥ 0 := by
+          rcases hm with hm | hm
+          · exact absurd hm hz0
+          · rw [hdata, List.length_append] at hm
+            omega
+        rw [if_pos hn]
     simp only [List.foldl_cons, hstep]
-    have hb' : ({ st with out := st.out ++ f.payload } : H2Body).bodyLen = -1 ∨
-        (((({ st with out := st.out ++ f.payload } : H2Body).out.length + (framesData tl).length : Nat)) : Int)
-          ≤ ({ st with out := st.out ++ f.payload } : H2Body).bodyLen := by
+    have hb' : ({ st with out := st.out ++ d } : H2Body).bodyLen = -1 ∨
+        (((({ st with out := st.out ++ d } : H2Body).out.length + (framesData tl).length : Nat)) : Int)
+          ≤ ({ st with out := st.out ++ d } : H2Body).bodyLen := by
       rcases hb with hb | hb
       · left; exact hb
       · right
@@ -226,8 +320,47 @@ theorem h2_fold_open (fs : List DataFrame) (hne : ∀ f ∈ fs, f.endStream = fa
         simp only [List.length_append] at hb ⊢
         push_cast at hb ⊢
         omega
-    have := ih (fun x hx => hne x (by simp [hx])) { st with out := st.out ++ f.payload } hopen hb'
+    have hm' : c.maxSize = 0 ∨
+        ({ st with out := st.out ++ d } : H2Body).out.length + (framesData tl).length ≤ c.maxSize * 1024 := by
+      rcases hm with hm | hm
+      · left; exact hm
+      · right; rw [hdata] at hm; simp only [List.length_append] at hm ⊢; omega
+    have := ih (fun x hx => hne x (by simp [hx])) { st with out := st.out ++ d } hopen hga hb' hm'
     rw [this]
     simp [hdata, List.append_assoc]
+
+/-- with a Content-Length, whatever frames arrive: reqbody_length is never changed and never more
+    than Content-Length bytes are accepted -/
+theorem h2_bounded_step (c : H2Cfg) (cl : Int) (hcl : cl ≥ 0) (st : H2Body) (f : DataFrame)
+    (h : st.bodyLen = cl ∧ (st.out.length : Int) ≤ cl) :
+    (h2RecvData c st f).bodyLen = cl ∧ ((h2RecvData c st f).out.length : Int) ≤ cl := by
+  obtain ⟨h1, h2⟩ := h
+  unfold h2RecvData
+  split
+  · exact ⟨h1, h2⟩
+  · split
+    · exact ⟨h1, h2⟩
+    · rename_i d _
+      have hneg : ¬ (st.bodyLen = -1) := by omega
+      have key : ¬ (st.bodyLen ≥ 0 ∧ st.bodyLen < ((st.out.length + d.length : Nat) : Int)) →
+          (((st.out ++ d).length : Nat) : Int) ≤ cl := by
+        intro hh
+        rw [List.length_append]
+        omega
+      simp only [hneg, ↓reduceIte]
+      repeat' split
+      all_goals first
+        | exact ⟨h1, h2⟩
+        | (refine ⟨h1, ?_⟩; apply key; assumption)
+
+theorem h2_bounded (c : H2Cfg) (cl : Int) (hcl : cl ≥ 0) (fs : List DataFrame) :
+    ∀ st : H2Body, st.bodyLen = cl ∧ (st.out.length : Int) ≤ cl →
+      (fs.foldl (h2RecvData c) st).bodyLen = cl ∧ ((fs.foldl (h2RecvData c) st).out.length : Int) ≤ cl := by
+  induction fs with
+  | nil => intro st h; exact h
+  | cons f tl ih =>
+    intro st h
+    simp only [List.foldl_cons]
+    exact ih _ (h2_bounded_step c cl hcl st f h)
 
 end LtVerif
